@@ -50,6 +50,9 @@ type Presented struct {
 	Required  map[string]string `json:"required,omitempty"`
 	Reader    string            `json:"reader,omitempty"` // how notation.VerifyBlob is handed the blob
 	SplitAt   int               `json:"splitAt,omitempty"`
+	// Skipped (reader "advanced-seekable"): bytes that precede the blob in the caller's seekable
+	// source and that the caller has already consumed; the blob is what is left to read
+	Skipped []byte `json:"skipped,omitempty"`
 }
 
 // blobReader presents the blob through readers with different legal behaviours.
@@ -72,6 +75,10 @@ func (p Presented) blobReader() io.Reader {
 		return io.MultiReader(bytes.NewReader(b), iotest.ErrReader(errors.New("scripted read failure after the blob's bytes")))
 	case "error-in-the-middle":
 		return io.MultiReader(bytes.NewReader(b[:len(b)/2]), iotest.ErrReader(errors.New("scripted read failure in mid-stream")))
+	case "advanced-seekable": // a seekable source positioned behind a header the caller has consumed
+		r := bytes.NewReader(append(append([]byte{}, p.Skipped...), b...))
+		r.Seek(int64(len(p.Skipped)), io.SeekStart)
+		return r
 	}
 	return bytes.NewReader(b)
 }
@@ -538,7 +545,7 @@ func drawMetadata(rt *rapid.T) map[string]string {
 	}
 	m := map[string]string{}
 	for i := 0; i < n; i++ {
-		m[rp.Pick(rt, "mk", "env", "Env", "build", "owner", "stage")] = rp.Pick(rt, "mv", "prod", "Prod", "42", "", "dev")
+		m[rp.Pick(rt, "mk", "env", "Env", "build", "owner", "stage", "team=core", "a:b", "k v")] = rp.Pick(rt, "mv", "prod", "Prod", "42", "", "dev", "core=prod", "b:c", "x y")
 	}
 	return m
 }
@@ -595,6 +602,9 @@ func TestC01_Bound(t *testing.T) {
 		if kind == "blob" && rapid.IntRange(0, 9).Draw(rt, "signedForEmptyBlob") == 0 {
 			c.Source = "signed-for-the-empty-blob"
 		}
+		if kind == "blob" && c.Entry == "notation.VerifyBlob" && rapid.IntRange(0, 9).Draw(rt, "tailPresented") == 0 {
+			c.Source = "whole-file-signed-tail-presented"
+		}
 		descNearMiss := func() {
 			p := &c.Presented
 			if kind == "oci" {
@@ -647,7 +657,25 @@ func TestC01_Bound(t *testing.T) {
 				ks = append(ks, k)
 			}
 			sort.Strings(ks)
-			op := rp.Pick(rt, "metaMutation", "missing-key", "other-value", "case-key", "swap-values", "empty-vs-absent", "pool-pair-not-signed", "pool-pair-not-signed")
+			op := rp.Pick(rt, "metaMutation", "missing-key", "other-value", "case-key", "swap-values", "empty-vs-absent", "pool-pair-not-signed", "pool-pair-not-signed", "separator-shift", "separator-shift")
+			if op == "separator-shift" {
+				// a required pair whose key and value, written one after the other with a separator, read like a
+				// signed pair split at another place: signed "k<sep>x" -> "y" never contains the pair "k" -> "x<sep>y"
+				for _, k := range ks {
+					for _, sep := range []string{"=", ":", "\x00", " ", ""} {
+						if i := strings.Index(k, sep); sep != "" && i > 0 {
+							p.Required[k[:i]] = k[i+len(sep):] + sep + ann[k]
+							c.Detail += "separator-shift;"
+							return
+						}
+						if i := strings.Index(ann[k], sep); sep != "" && i >= 0 {
+							p.Required[k+sep+ann[k][:i]] = ann[k][i+len(sep):]
+							c.Detail += "separator-shift;"
+							return
+						}
+					}
+				}
+			}
 			if op == "pool-pair-not-signed" {
 				// a pair that OTHER signatures of this run carry (keys and values come from the same small
 				// pool) but this one does not: state leaking between verifications would satisfy it
@@ -742,6 +770,16 @@ func TestC01_Bound(t *testing.T) {
 			payload := fmt.Sprintf(`{"targetArtifact":{"mediaType":%q,"digest":%q,"size":0}}`, art.mediaType, kit.OwnDigest(alg, nil))
 			c.Envelope = buildEnv(c.Format, sA, []byte(payload), envb.PayloadType, c.Plugin)
 			c.Detail = "empty-blob-digest-alg=" + alg
+		case "whole-file-signed-tail-presented":
+			// the signer's valid signature over header+blob; the caller has consumed the header of its
+			// seekable source and presents what is left: the blob, which is another artifact
+			header := []byte(rp.Pick(rt, "header", "MAGIC\x00\x01", "#!/bin/sh\n", "x"))
+			whole := append(append([]byte{}, header...), art.blob...)
+			ai, _ := envb.AlgFor(sA.chain.Leaf().Key.Public())
+			payload := fmt.Sprintf(`{"targetArtifact":{"mediaType":%q,"digest":%q,"size":%d}}`, art.mediaType, kit.OwnDigest(hashName(ai), whole), len(whole))
+			c.Envelope = buildEnv(c.Format, sA, []byte(payload), envb.PayloadType, c.Plugin)
+			c.Presented.Skipped = header
+			c.Detail = "signed-whole-presented-tail"
 		case "wrong-payload-type":
 			switch rp.Pick(rt, "wrongType", "content-type", "other-shape", "descriptor-at-top", "empty-object") {
 			case "content-type":
@@ -768,7 +806,12 @@ func TestC01_Bound(t *testing.T) {
 			c.Earlier = []Earlier{{e0, art.mediaType, art.digest, art.size}}
 		}
 		if kind == "blob" {
-			c.Presented.Reader = rp.Pick(rt, "reader", "bytes", "bytes", "multi-split", "multi-split", "one-byte", "data-with-eof", "half", "error-at-end", "error-in-the-middle")
+			c.Presented.Reader = rp.Pick(rt, "reader", "bytes", "bytes", "multi-split", "multi-split", "one-byte", "data-with-eof", "half", "error-at-end", "error-in-the-middle", "advanced-seekable")
+			if c.Source == "whole-file-signed-tail-presented" {
+				c.Presented.Reader = "advanced-seekable"
+			} else if c.Presented.Reader == "advanced-seekable" {
+				c.Presented.Skipped = []byte("header the caller has read")
+			}
 			c.Presented.SplitAt = len(art.blob) // a prefix Read returns exactly the blob that was signed
 		}
 		if c.Entry == "notation.Verify" && rapid.Bool().Draw(rt, "decoys") {
